@@ -158,7 +158,7 @@ def make(name, k, cutoff, variant, occn=None):
     raise KeyError("no catalogue entry for " + name)
 
 
-KNOWN_EXN = ("InvalidParameter", "InvalidSimulation", "InvalidModes", "InvalidProgram",
+KNOWN_EXN = ("InactiveModes", "InvalidParameter", "InvalidSimulation", "InvalidModes", "InvalidProgram",
              "InvalidState", "PiquassoException")
 
 
@@ -212,7 +212,7 @@ def _cond_patch(self, outcomes):
 Instruction._is_condition_met = _cond_patch
 
 
-def all_outcomes_sampler(probability_map, shots):
+def all_outcomes_sampler(probability_map, shots, *args, **kwargs):
     """Scripted categorical draw: every outcome the state can give, each once."""
     from fractions import Fraction
 
